@@ -61,6 +61,8 @@ class MicroMatrices(probe.Contract):
 
 
 class EvpAls(ApiImmut):
+    freeze = True  # the oracle sees the arguments as they were at call entry; arrays / lists rewritten by the call are reported
+    input_prop = 'C08'
     def __init__(self):
         ApiImmut.__init__(self, 'evp.als')
 
@@ -121,6 +123,8 @@ class EvpAls(ApiImmut):
 
 
 class PowerMethod(ApiImmut):
+    freeze = True  # the oracle sees the arguments as they were at call entry; arrays / lists rewritten by the call are reported
+    input_prop = 'C08'
     def __init__(self):
         ApiImmut.__init__(self, 'evp.power_method')
 
